@@ -202,14 +202,15 @@ theorem engineFrame_range (s e : Int) (lo hi : Bound) (hl : boundOf (getValueAnd
 
 /-! ### order keys -/
 
-theorem key_agrees (F : Flags) (k : UKey) (h : F.bareWrap = some (false, some true) ∨ k.form ≠ .bare) :
+theorem key_agrees (F : Flags) (k : UKey) (h : k.explicitOk F = true) :
     engineKey (emitKey F k) = sparkKey k := by
-  obtain ⟨name, form⟩ := k
+  obtain ⟨name, form, expr⟩ := k
+  simp only [UKey.explicitOk, Bool.or_eq_true, decide_eq_true_eq] at h
   cases form
   case bare =>
     rcases h with h | h
-    · simp [emitKey, formOrdered, h, engineKey, sparkKey]
     · exact absurd rfl h
+    · simp [emitKey, formOrdered, h, engineKey, sparkKey]
   all_goals
     simp [emitKey, formOrdered, engineKey, sparkKey, ord_asc, ord_desc, ord_asc_nulls_first, ord_asc_nulls_last,
       ord_desc_nulls_first, ord_desc_nulls_last]
@@ -242,7 +243,7 @@ structure StepHyps (strict : Bool) (F : Flags) (v : SpecVal) (op : BOp) (ops : L
   orderFresh : F.orderExtends = false ∨ v.order = [] ∨ (op :: ops).countP BOp.isOrder = 0
   partOnce : F.partExtends = false ∨ (op :: ops).countP BOp.isPart ≤ 1
   orderOnce : F.orderExtends = false ∨ (op :: ops).countP BOp.isOrder ≤ 1
-  explicit : F.bareWrap = some (false, some true) ∨ op.hasBareKey = false
+  explicit : op.bareKeysOk F = true
   edge : op.edgeOk strict = true
 
 theorem step_inv (strict : Bool) (F : Flags) (v : SpecVal) (w w' : WinDef) (op : BOp) (ops : List BOp)
@@ -281,11 +282,9 @@ theorem step_inv (strict : Bool) (F : Flags) (v : SpecVal) (w w' : WinDef) (op :
       apply List.map_congr_left
       intro k hk
       apply key_agrees
-      rcases hs.explicit with h | h
-      · exact Or.inl h
-      · right
-        simp only [BOp.hasBareKey, List.any_eq_false, decide_eq_true_eq] at h
-        exact h k hk
+      have h := hs.explicit
+      simp only [BOp.bareKeysOk, List.all_eq_true] at h
+      exact h k hk
     have hord : ((if F.orderExtends = true then v.order else []) ++ ks.map (emitKey F)).map engineKey = ks.map sparkKey := by
       rcases hs.orderFresh with h | h | h
       · simp [h, hkeys]
@@ -371,7 +370,7 @@ theorem chain_inv (strict : Bool) (F : Flags) (ops : List BOp) : ∀ (v : SpecVa
     (F.orderExtends = false ∨ v.order = [] ∨ ops.countP BOp.isOrder = 0) →
     (F.partExtends = false ∨ ops.countP BOp.isPart ≤ 1) →
     (F.orderExtends = false ∨ ops.countP BOp.isOrder ≤ 1) →
-    (F.bareWrap = some (false, some true) ∨ ops.all (fun op => !op.hasBareKey) = true) →
+    ops.all (BOp.bareKeysOk F) = true →
     ops.all (BOp.edgeOk strict) = true →
     sparkFrom w ops = some w' →
     Inv strict (emitFrom F v ops) w' := by
@@ -386,18 +385,9 @@ theorem chain_inv (strict : Bool) (F : Flags) (ops : List BOp) : ∀ (v : SpecVa
     simp only [sparkFrom] at hs
     split at hs
     next w1 hu =>
-      have hex1 : F.bareWrap = some (false, some true) ∨ op.hasBareKey = false := by
-        rcases hex with h | h
-        · exact Or.inl h
-        · right
-          simp only [List.all_cons, Bool.and_eq_true, Bool.not_eq_true'] at h
-          exact h.1
-      have hex2 : F.bareWrap = some (false, some true) ∨ ops.all (fun op => !op.hasBareKey) = true := by
-        rcases hex with h | h
-        · exact Or.inl h
-        · right
-          simp only [List.all_cons, Bool.and_eq_true] at h
-          exact h.2
+      simp only [List.all_cons, Bool.and_eq_true] at hex
+      have hex1 := hex.1
+      have hex2 := hex.2
       simp only [List.all_cons, Bool.and_eq_true] at hed
       obtain ⟨hinv, hpf', hof'⟩ := step_inv strict F v w w1 op ops hi ⟨hpf, hof, hpo, hoo, hex1, hed.1⟩ hu
       have hpo' : F.partExtends = false ∨ ops.countP BOp.isPart ≤ 1 := by
